@@ -116,6 +116,9 @@ func c18Accumulate(c *Ctx, fd *ast.FuncDecl, name string, op token.Token, ident 
 	}
 	v := c.view(fd)
 	p, loop, msg := singleLoopPath(paths)
+	if msg == "no loop" && len(paths) == 1 && c18AccumulateByFold(c, fd, name, op, ident, intFam, paths[0], v, lob) {
+		return
+	}
 	if msg != "" {
 		lob.Fail("expected one range loop over the receiver's spine accumulating in the result type (%s) — the fold is not computed directly over the elements", msg)
 		return
@@ -229,6 +232,88 @@ func c18Accumulate(c *Ctx, fd *ast.FuncDecl, name string, op token.Token, ident 
 	c.Ob("C18.R4", name+"/selection", loop.Node.Pos()).Check(len(got) == len(wantArms), "folds exactly the element kinds "+sprint(keysOf(wantArms)), "folds kinds "+sprint(keysOf(got))+", expected "+sprint(keysOf(wantArms)))
 }
 
+// c18AccumulateByFold: the aggregate written as one Reduce/ReduceInts fold over the receiver (selection and order decided by C14 on that
+// method): identity constant, reducer folded numerically to acc OP element, the fold's result returned. Reports true when it took the decision.
+func c18AccumulateByFold(c *Ctx, fd *ast.FuncDecl, name string, op token.Token, ident int64, intFam bool, p *Path, v *sxView, lob *Ob) bool {
+	effs := p.Effects()
+	if len(effs) != 1 || effs[0].Kind != "call" || effs[0].Call == nil || effs[0].Call.Fun == nil || len(p.Conds()) != 0 {
+		return false
+	}
+	fold := effs[0].Call
+	wantReduce := "Reduce"
+	if intFam {
+		wantReduce = "ReduceInts"
+	}
+	if fold.Recv == nil || !(v.isSelf(fold.Recv) || v.isRecv(fold.Recv)) || len(fold.Args) != 2 || fold.Fun.Name() != wantReduce {
+		return false
+	}
+	lit, ok := fold.Args[1].(TLit)
+	fl, isFl := lit.Node.(*ast.FuncLit)
+	if !ok || !isFl {
+		return false
+	}
+	var ps []types.Object
+	for _, f := range fl.Type.Params.List {
+		for _, nm := range f.Names {
+			ps = append(ps, c.Info.Defs[nm])
+		}
+	}
+	if len(ps) != 2 {
+		return false
+	}
+	r := p.Vals
+	if p.End != "return" || len(r) != 1 {
+		lob.Fail("the aggregate does not return the fold's result")
+		return true
+	}
+	rv := r[0]
+	if a, ok := rv.(TAssert); ok {
+		rv = a.X
+	}
+	if rc, ok := rv.(TCall); !ok || key(rc) != key(*fold) {
+		lob.Fail("the aggregate does not return the fold's result")
+		return true
+	}
+	lob.Ok("one %s fold over the receiver (visit and selection decided by C14 on %s); its result is what is returned", wantReduce, wantReduce)
+	iob := c.Ob("C18.R1", name+"/identity", fd.Pos())
+	if f, ok := c.constNumberTerm(fold.Args[0]); !ok {
+		iob.Undecided("identity is not a constant")
+	} else {
+		iob.Check(f == float64(ident), "fold starts at "+itoa(int(ident)), "fold starts at "+c.termStr(fold.Args[0])+", the identity is "+itoa(int(ident)))
+	}
+	if !intFam {
+		k, isK := simplify(fold.Args[0]).(TConst)
+		c.Ob("C18.R2", name+"/domain", fd.Pos()).Check(isK && k.Val.Kind() == constant.Float, "accumulates in float64 (the identity is a float64 constant)", "the identity is not a float64 constant: the accumulator's dynamic type is int and the float64 assertion of the result panics")
+	}
+	bodyPaths := c.NewSX().RunStmts(fl.Body.List, effs[0].Env)
+	rob := c.Ob("C18.R2", name+"/reducer", fl.Pos())
+	for _, bp := range bodyPaths {
+		if bp.Why != "" {
+			rob.Undecided("reducer outside the path vocabulary: %s", bp.Why)
+			return true
+		}
+		if len(bp.Effects()) != 0 {
+			rob.Fail("the reducer has an effect besides computing the accumulator")
+			return true
+		}
+	}
+	bad, undec, n := c.foldReducer(bodyPaths, ps, intFam, !intFam, "acc "+op.String()+" element", func(acc, item numVal) float64 {
+		if op == token.MUL {
+			return acc.F * item.F
+		}
+		return acc.F + item.F
+	})
+	switch {
+	case undec != "":
+		rob.Undecided("reducer cannot be folded numerically: %s", undec)
+	case bad != "":
+		rob.Fail("%s", bad)
+	default:
+		rob.Ok("on all %d (accumulator, element) samples the reducer returns acc %s element; an element of another kind leaves the accumulator unchanged", n, op)
+	}
+	return true
+}
+
 func (c *Ctx) constNumberTerm(t Term) (float64, bool) {
 	k, ok := simplify(t).(TConst)
 	if !ok {
@@ -240,6 +325,96 @@ func (c *Ctx) constNumberTerm(t Term) (float64, bool) {
 		return f, true
 	}
 	return 0, false
+}
+
+// foldReducer evaluates the paths of a two-parameter reducer literal on a grid of (accumulator, element) samples — negative, zero,
+// fractional, int-typed and float64-typed elements, and (withOther) an element of a non-numeric kind, for which the accumulator must
+// come back unchanged — and compares the result with want. Exactly one path must apply to every sample.
+func (c *Ctx) foldReducer(bodyPaths []*Path, ps []types.Object, intFam, withOther bool, what string, want func(acc, item numVal) float64) (bad, undec string, n int) {
+	accKey, itemKey := key(TVar{ps[0]}), key(TVar{ps[1]})
+	floats := []float64{-3, -2.5, -1, -0.5, 0, 0.5, 1, 2.5, 3}
+	ints := []float64{-3, -1, 0, 1, 3}
+	type sample struct {
+		acc, item numVal
+	}
+	var samples []sample
+	if intFam {
+		for _, a := range ints {
+			for _, b := range ints {
+				samples = append(samples, sample{numVal{F: a, IsInt: true}, numVal{F: b, IsInt: true}})
+			}
+		}
+	} else {
+		for _, a := range floats {
+			for _, b := range floats {
+				samples = append(samples, sample{numVal{F: a}, numVal{F: b}})
+			}
+			for _, b := range ints {
+				samples = append(samples, sample{numVal{F: a}, numVal{F: b, IsInt: true}})
+			}
+			if withOther {
+				samples = append(samples, sample{numVal{F: a}, numVal{Other: true}})
+			}
+		}
+	}
+	for _, sm := range samples {
+		matched := 0
+		for _, bp := range bodyPaths {
+			e := &numEnv{vals: map[string]numVal{accKey: sm.acc, itemKey: sm.item}}
+			holds := true
+			for _, cd := range bp.Conds() {
+				val, ok := e.cond(cd.T)
+				if !ok {
+					undec = e.fail
+					break
+				}
+				if val != cd.Truth {
+					holds = false
+					break
+				}
+			}
+			if undec != "" {
+				break
+			}
+			if !holds {
+				continue
+			}
+			matched++
+			if bp.End != "return" || len(bp.Vals) != 1 {
+				bad = "a reducer path does not return a value"
+				break
+			}
+			got, ok := e.num(bp.Vals[0])
+			if !ok {
+				if len(e.fail) > 6 && e.fail[:6] == "panic:" {
+					bad = "for acc=" + fmtNum(sm.acc) + ", element=" + fmtNum(sm.item) + " the reducer panics (" + e.fail + ")"
+				} else {
+					undec = e.fail
+				}
+				break
+			}
+			w := sm.acc.F
+			if !sm.item.Other {
+				w = want(sm.acc, sm.item)
+			}
+			if got.F != w || got.Other {
+				bad = "for acc=" + fmtNum(sm.acc) + ", element=" + fmtNum(sm.item) + " the reducer yields " + fmtF(got.F) + ", " + what + " is " + fmtF(w)
+				break
+			}
+			if !intFam && got.IsInt {
+				bad = "the reducer returns an int where the fold's accumulator is float64 (the next step or the final assertion panics)"
+				break
+			}
+		}
+		if bad != "" || undec != "" {
+			break
+		}
+		if matched != 1 {
+			undec = "the reducer's paths are not exhaustive and exclusive for acc=" + fmtNum(sm.acc) + ", element=" + fmtNum(sm.item)
+			break
+		}
+	}
+	return bad, undec, len(samples)
 }
 
 func c18MinMax(c *Ctx, fd *ast.FuncDecl, name string, smaller, intFam bool) {
@@ -343,94 +518,21 @@ func c18MinMax(c *Ctx, fd *ast.FuncDecl, name string, smaller, intFam bool) {
 		present = here
 	}
 	// numeric folding of the reducer
-	accKey, itemKey := key(TVar{ps[0]}), key(TVar{ps[1]})
-	floats := []float64{-3, -2.5, -1, -0.5, 0, 0.5, 1, 2.5, 3}
-	ints := []float64{-3, -1, 0, 1, 3}
-	type sample struct {
-		acc, item numVal
-	}
-	var samples []sample
-	if intFam {
-		for _, a := range ints {
-			for _, b := range ints {
-				samples = append(samples, sample{numVal{a, true}, numVal{b, true}})
-			}
+	dir := map[bool]string{true: "smaller", false: "larger"}[smaller]
+	bad, undec, nSamples := c.foldReducer(bodyPaths, ps, intFam, false, "the "+dir, func(acc, item numVal) float64 {
+		want := acc.F
+		if (smaller && item.F < want) || (!smaller && item.F > want) {
+			want = item.F
 		}
-	} else {
-		for _, a := range floats {
-			for _, b := range floats {
-				samples = append(samples, sample{numVal{a, false}, numVal{b, false}})
-			}
-			for _, b := range ints {
-				samples = append(samples, sample{numVal{a, false}, numVal{b, true}})
-			}
-		}
-	}
-	bad, undec := "", ""
-	for _, sm := range samples {
-		matched := 0
-		for _, bp := range bodyPaths {
-			e := &numEnv{vals: map[string]numVal{accKey: sm.acc, itemKey: sm.item}}
-			holds := true
-			for _, cd := range bp.Conds() {
-				val, ok := e.cond(cd.T)
-				if !ok {
-					undec = e.fail
-					break
-				}
-				if val != cd.Truth {
-					holds = false
-					break
-				}
-			}
-			if undec != "" {
-				break
-			}
-			if !holds {
-				continue
-			}
-			matched++
-			if bp.End != "return" || len(bp.Vals) != 1 {
-				bad = "a reducer path does not return a value"
-				break
-			}
-			got, ok := e.num(bp.Vals[0])
-			if !ok {
-				if len(e.fail) > 6 && e.fail[:6] == "panic:" {
-					bad = "for acc=" + fmtNum(sm.acc) + ", element=" + fmtNum(sm.item) + " the reducer panics (" + e.fail + ")"
-				} else {
-					undec = e.fail
-				}
-				break
-			}
-			want := sm.acc.F
-			if (smaller && sm.item.F < want) || (!smaller && sm.item.F > want) {
-				want = sm.item.F
-			}
-			if got.F != want {
-				bad = "for acc=" + fmtNum(sm.acc) + ", element=" + fmtNum(sm.item) + " the reducer yields " + fmtF(got.F) + ", the " + map[bool]string{true: "smaller", false: "larger"}[smaller] + " is " + fmtF(want)
-				break
-			}
-			if !intFam && got.IsInt {
-				bad = "the reducer returns an int where the fold's accumulator is float64 (the next comparison or the final assertion panics)"
-				break
-			}
-		}
-		if bad != "" || undec != "" {
-			break
-		}
-		if matched != 1 {
-			undec = "the reducer's paths are not exhaustive and exclusive for acc=" + fmtNum(sm.acc) + ", element=" + fmtNum(sm.item)
-			break
-		}
-	}
+		return want
+	})
 	switch {
 	case undec != "":
 		rob.Undecided("reducer cannot be folded numerically: %s", undec)
 	case bad != "":
 		rob.Fail("%s", bad)
 	default:
-		rob.Ok("on all %d (accumulator, element) samples — negative, fractional, int and float elements — the reducer returns the %s of the two in %s", len(samples), map[bool]string{true: "smaller", false: "larger"}[smaller], map[bool]string{true: "int", false: "float64"}[intFam])
+		rob.Ok("on all %d (accumulator, element) samples — negative, fractional, int and float elements — the reducer returns the %s of the two in %s", nSamples, dir, map[bool]string{true: "int", false: "float64"}[intFam])
 	}
 	// presence flag and result selection
 	pob := c.Ob("C18.R3", name+"/presence", fd.Pos())
